@@ -242,6 +242,8 @@ def is_get(term, base_pred, key, defaults=(None,)):
     if len(args) == 1:
         return args[0] == ("const", key)
     if len(args) == 2:
+        if args[0] == ("const", key) and key == "params" and (args[1] == ("tuple", ()) or (args[1][0] == "other" and args[1][1] in ("[]", "()", "{}"))):
+            return True      # absent parameters default to an empty container: the same call
         return args[0] == ("const", key) and args[1][0] == "const" and args[1][1] in defaults
     return False
 
